@@ -393,5 +393,5 @@ def run(ctx):
     ctx.guarded(r, XS.check_interval_piecewise)
     from .. import x86pw as PW86
 
-    r = ctx.rule("R3k", "x86_64 interval abs / square / recip / sqrt / min / max / and / or / compare: on every order type of the bounds exactly one path is selected and its output encloses the operation's range over the box (or is the NaN interval)", 9)
+    r = ctx.rule("R3k", "x86_64 interval abs / square / recip / sqrt / min / max / and / or / compare: on every order type of the bounds exactly one path is selected and its output encloses the operation's range over the box (or is the NaN interval)", 10)
     ctx.guarded(r, PW86.check_piecewise, "interval", choices=False)
